@@ -345,6 +345,9 @@ class Ctx:
             from . import world as _world
             if _world.DEFAULTED_FIELDS:
                 self.extra['struct_fields_unknown_to_the_harness_set_to_zero_values'] = sorted(f"{a}.{b}: {c}" for (a, b, c) in _world.DEFAULTED_FIELDS)
+            from . import rtypes as _rt
+            if _rt.ALIASED_FIELDS:
+                self.extra['renamed_struct_fields_addressed_by_their_old_names'] = sorted(f"{a}.{b} (was {c}: {d})" for (a, b, c, d) in _rt.ALIASED_FIELDS)
         except Exception:
             pass
         stats = {'paths': 0, 'blocks': 0, 'solver_calls': 0, 'solver_time': 0.0, 'forks': 0, 'calls_inlined': 0}
